@@ -164,10 +164,12 @@ func Open(fileName string, opts *Options) (*AppendableFile, error) {
 		if err != nil {
 			return nil, err
 		}
-		verifhook.FSWrite(fileName, 0, mLenBs)
-		verifhook.FSWrite(fileName, 4, mBs)
-		if verifhook.Enabled && opts.preallocSize > 0 {
-			verifhook.FSWrite(fileName, int64(4+len(mBs)), make([]byte, opts.preallocSize))
+		if verifhook.Enabled {
+			// the header reaches the file as one buffered write
+			hdr := make([]byte, 4+len(mBs)+opts.preallocSize)
+			copy(hdr, mLenBs)
+			copy(hdr[4:], mBs)
+			verifhook.FSWrite(fileName, 0, hdr)
 		}
 
 		err = f.Sync()
